@@ -21,6 +21,10 @@ func checkSend(serName string, nibble int, sizes []int) {
 	_, ser, proto := serByName(serName)
 	limit := 1 << (9 + nibble)
 	in := replayCase{Section: "send", Ser: serName, Nibble: nibble, Sizes: sizes}
+	if perKind["send-spec"] >= 5 && len(sizes) > 1 {
+		sum.Count("send:skipped-after-5-violations")
+		return // enough failing inputs; every further one may cost a timeout
+	}
 	guard("send", in, func() {
 		cli, srv := net.Pipe()
 		defer cli.Close()
@@ -110,7 +114,7 @@ func checkSend(serName string, nibble int, sizes []int) {
 		tail := append([]byte{0, byte(len(sb) >> 16), byte(len(sb) >> 8), byte(len(sb))}, sb...)
 		buf := make([]byte, 1<<16)
 		wedged := false
-		for !bytes.HasSuffix(got, tail) || len(got) < len(wantSpec) {
+		for !bytes.HasSuffix(got, tail) { // the sender is sequential: nothing follows the sentinel
 			_ = cli.SetReadDeadline(time.Now().Add(wedge))
 			n, err := cli.Read(buf)
 			got = append(got, buf[:n]...)
@@ -131,6 +135,14 @@ func checkSend(serName string, nibble int, sizes []int) {
 			d := "the bytes on the wire are not exactly the frames of the messages that fit the announced limit, in order"
 			if wedged {
 				d += " (and the sender stopped before the sentinel arrived)"
+			}
+			if len(sizes) > 1 && perKind["send-spec"] < 5 { // minimise: which single message is enough?
+				before := perKind["send-spec"]
+				for _, n := range sizes {
+					if checkSend(serName, nibble, []int{n}); perKind["send-spec"] > before {
+						return
+					}
+				}
 			}
 			disagree("send-spec", in, short(got), short(wantSpec), true, d)
 		case !bytes.Equal(got, wantModel):
